@@ -13,6 +13,10 @@ CLAIMED = {
  "C02": ("DESIGN.md §4 C02", "Every path of Update that signs or stores anything is shown to have verified exactly the submitted bytes under the origin and key configured for the named log id; unknown ids are refused before any other effect.", "A-sig: what 'valid under key and origin' means byte-for-byte is the pinned dependency's contract, validated separately", TECH),
  "C03": ("DESIGN.md §4 C03", "On every refusing path the whole store (every configured slot and the log list) is proved equal to the pre-state and the returned bytes are nil or the stored checkpoint, never a Sign result.", "database commit contract for the SQL store", TECH),
  "C04": ("DESIGN.md §4 C04", "On every accepting path exactly one note.Sign call happens, on the note parsed from the submitted bytes, with all configured signers in order; its result is what is stored, returned and read back; the timestamp lies inside the call window.", "byte layout and validity of signatures are note.Sign's contract (A-sig)", TECH),
+ "C05": ("DESIGN.md §4 C05", "2 (quick) / 3 (thorough) concurrent real Update/GetCheckpoint operations on one shared store are executed under every interleaving at lock and database-operation granularity (the scheduler's choices are solver-explored decisions); on every schedule and for all request values the solver proves that some sequential order of the operations, run through the reference model, explains every result and the final state, allowing only a storage-conflict error with no effect; deadlock freedom is asserted on every schedule.", "yield points are sync.(RW)Mutex and database/sql operations (code between them is atomic by lock discipline); pool size 1 for SQL; randomised race-detector runs are outside this technique", TECH + "; schedules as nondeterministic choices"),
+ "C06": ("DESIGN.md §4 C06", "The real Update over the real sql.go is killed (no deferred calls run) before and after every driver operation of the database contract model; a fresh witness is built over the committed table; the solver proves each log is at its old value or at the cosigned value being written, that an acknowledged update is durable, and that the restarted witness applies the append-only obligations from the committed state.", "relative to A-db (SQLite commits atomically and durably; uncommitted work leaves no trace). Real SIGKILL, the file system and the cgo driver are not encoded.", TECH + "; crash position as a nondeterministic choice"),
+ "C07": ("DESIGN.md §4 C07", "One real Update under every subset of failing storage calls — interface level (WriteOps/GetLatest/Set/Close through a wrapping store) and driver level (every database/sql call of the contract model) — followed by a fault-free read and a fault-free second Update: accepted implies the read returns the same bytes, a failed read of the previous checkpoint never leads to signing, no transaction or write handle stays open (the follow-up on a one-connection pool would otherwise be reported as deadlock), and the second update obeys the reference from the last committed state.", "A-db; error values are representative (plain error, Unavailable, Internal)", TECH + "; fault pattern as nondeterministic choices"),
+ "C08": ("DESIGN.md §4 C08", "(a) Invariant preservation: after every accepted update the stored bytes verify again under the log's key (so nothing stored can fail its own next verification). (b) From any state whose stored checkpoint belongs to the honest log, an honest step (sizes up to the bound, proof produced by the real tlog.ProveTree, real VerifyConsistency inlined) is accepted. One listed known finding (stored size 0).", "tree sizes bounded (8 quick / 32 thorough); signers assumed not to fail", TECH),
  "C09": ("DESIGN.md §4 C09", "The (bytes, error) result of the real Update is compared, for all 64-bit sizes, with an executable reference of the tlog-witness rule order written in the harness; the proof verdict is tied to the real verifier by H-VC.", "reference model is hand-written from the spec; carve-outs exactly as in the property text", TECH + "; differential against a reference model"),
  "C12": ("DESIGN.md §4 C12", "Frame condition: an update naming log a leaves every other slot bit-identical on every path.", "identity derivations (config/bastion/distributor) checked in H-ID", TECH),
  "C20": ("DESIGN.md §4 C20", "Counter increments recorded through a recording MetricFactory are compared with the outcome on every path: attempt iff known log, success iff accepted, invalid-consistency iff ErrInvalidProof, inconsistent iff ErrRootMismatch, no others, label = log id.", "per-step statement; histories follow by summation", TECH),
